@@ -9,7 +9,7 @@ except the `isinstance` guards, which are listed in the generated file."""
 import ast
 
 from harness.consts.wire import _class_int_attrs
-from harness.lib.wire_translate import Spec, WireTranslator, lst, rec, tup
+from harness.lib.wire_translate import Spec, WireTranslator, absrec, dct, ddict2, lst, rec, tup
 
 LEAN_IMPORTS = ["Afkak.Wire.GenPrims"]
 
@@ -55,7 +55,20 @@ FUNCS = [
 ]
 
 # result records built positionally by the decoders: name -> number of fields
-CTORS = {"_LeaveGroupResponse": 1, "_HeartbeatResponse": 1, "_SyncGroupResponse": 2}
+CTORS = {"ProduceResponse": 4, "OffsetCommitResponse": 3, "OffsetFetchResponse": 5, "OffsetResponse": 4, "BrokerMetadata": 3, "PartitionMetadata": 6, "TopicMetadata": 3, "_SyncGroupMemberAssignment": 3, "ConsumerMetadataResponse": 4, "_LeaveGroupResponse": 1, "_HeartbeatResponse": 1, "_SyncGroupResponse": 2, "ApiVersion": 3, "ApiVersionResponse": 2,
+         "_JoinGroupProtocolMetadata": 3, "_JoinGroupResponseMember": 2, "_JoinGroupResponse": 6}
+
+T_API_VERSION = tup("int", "int", "int")
+T_MEMBER = tup("text", "optbytes")
+# decoders with a `for _i in range(n)` loop: (.., declared types of the list locals)
+LOOP_FUNCS = [
+    ("kafkacodec.py", "KafkaCodec.decode_api_versions_response", "genDecodeApiVersionsResponse", [("data", "bytes")],
+     tup("int", lst(T_API_VERSION)), {"api_versions": lst(T_API_VERSION)}),
+    ("kafkacodec.py", "KafkaCodec.decode_join_group_protocol_metadata", "genDecodeJoinGroupProtocolMetadata", [("data", "bytes")],
+     tup("int", lst("text"), "optbytes"), {"subscriptions": lst("text")}),
+    ("kafkacodec.py", "KafkaCodec.decode_join_group_response", "genDecodeJoinGroupResponse", [("data", "bytes")],
+     tup("int", "int", "text", "text", "text", lst(T_MEMBER)), {"members": lst(T_MEMBER)}),
+]
 
 
 def _module_exprs(tree):
@@ -84,9 +97,71 @@ def extract(src):
     specs = []
     for fn, qual, lean, params, ret in FUNCS:
         specs.append(Spec(qual.split(".")[-1], lean, params, ret, src.func(fn, qual)))
+    for fn, qual, lean, params, ret, local_types in LOOP_FUNCS:
+        specs.append(Spec(qual.split(".")[-1], lean, params, ret, src.func(fn, qual), local_types=local_types))
+    # group_by_topic_and_partition(tuples): generic in the payload type, of which it reads .topic and .partition
+    payload = absrec("α", ("topic", "opttext"), ("partition", "int"))
+    grouped = ddict2("opttext", "int", payload)
+    specs.append(Spec("group_by_topic_and_partition", "genGroupByTopicAndPartition", [("tuples", lst(payload))], grouped,
+                      src.func("_util.py", "group_by_topic_and_partition"),
+                      generic=("α", [("topic", "opttext"), ("partition", "int")]), local_types={"out": grouped}))
     mod_exprs = {k: v for k, v in _module_exprs(util).items() if k == "_NULL_SHORT_STRING"}
     if "_NULL_SHORT_STRING" not in mod_exprs:
         raise KeyError("_util._NULL_SHORT_STRING not found")
+    kc = _module_exprs(codec)
+    if "MAX_BROKERS" not in kc:
+        raise KeyError("kafkacodec.MAX_BROKERS not found")
+    mod_exprs["MAX_BROKERS"] = kc["MAX_BROKERS"]
+    # _group_payloads(payloads) and the broker-aware encoders: generic in the payload type
+    def generic(name, lean, fn, qual, params_of, ret_of, attrs, local_types=None):
+        pl = absrec("α", *attrs)
+        specs.append(Spec(name, lean, params_of(pl), ret_of(pl), src.func(fn, qual), generic=("α", list(attrs)),
+                          local_types=local_types))
+
+    TP = [("topic", "opttext"), ("partition", "int")]
+    generic("_group_payloads", "genGroupPayloads", "kafkacodec.py", "_group_payloads",
+            lambda pl: [("payloads", lst(pl))], lambda pl: ddict2("opttext", "int", pl), TP)
+    hdr = [("client_id", "bytes"), ("correlation_id", "int")]
+    generic("encode_fetch_request", "genEncodeFetchRequest", "kafkacodec.py", "KafkaCodec.encode_fetch_request",
+            lambda pl: hdr + [("payloads", lst(pl)), ("max_wait_time", "int"), ("min_bytes", "int"), ("api_version", "int")],
+            lambda pl: "bytes", TP + [("offset", "int"), ("max_bytes", "int")])
+    generic("encode_offset_request", "genEncodeOffsetRequest", "kafkacodec.py", "KafkaCodec.encode_offset_request",
+            lambda pl: hdr + [("payloads", lst(pl))], lambda pl: "bytes", TP + [("time", "int"), ("max_offsets", "int")])
+    generic("encode_offset_commit_request", "genEncodeOffsetCommitRequest", "kafkacodec.py", "KafkaCodec.encode_offset_commit_request",
+            lambda pl: hdr + [("group", "opttext"), ("group_generation_id", "int"), ("consumer_id", "opttext"), ("payloads", lst(pl))],
+            lambda pl: "bytes", TP + [("offset", "int"), ("timestamp", "int"), ("metadata", "optbytes")])
+    generic("encode_offset_fetch_request", "genEncodeOffsetFetchRequest", "kafkacodec.py", "KafkaCodec.encode_offset_fetch_request",
+            lambda pl: hdr + [("group", "opttext"), ("payloads", lst(pl))], lambda pl: "bytes", TP)
+    specs.append(Spec("encode_sync_group_member_assignment", "genEncodeSyncGroupMemberAssignment",
+                      [("version", "int"), ("assignments", dct("opttext", "ints")), ("user_data", "optbytes")], "bytes",
+                      src.func("kafkacodec.py", "KafkaCodec.encode_sync_group_member_assignment")))
+    specs.append(Spec("decode_sync_group_member_assignment", "genDecodeSyncGroupMemberAssignment", [("data", "bytes")],
+                      tup("int", dct("text", "ints"), "optbytes"),
+                      src.func("kafkacodec.py", "KafkaCodec.decode_sync_group_member_assignment"),
+                      local_types={"assignments": dct("text", "ints")}))
+    specs.append(Spec("decode_consumermetadata_response", "genDecodeConsumermetadataResponse", [("data", "bytes")],
+                      tup("int", "int", "text", "int"), src.func("kafkacodec.py", "KafkaCodec.decode_consumermetadata_response")))
+    t_broker = tup("int", "text", "int")
+    t_part = tup("text", "int", "int", "int", "ints", "ints")
+    t_topic = tup("text", "int", dct("int", t_part))
+    specs.append(Spec("decode_metadata_response", "genDecodeMetadataResponse", [("data", "bytes")],
+                      tup(dct("int", t_broker), dct("text", t_topic)),
+                      src.func("kafkacodec.py", "KafkaCodec.decode_metadata_response"),
+                      local_types={"brokers": dct("int", t_broker), "topic_metadata": dct("text", t_topic),
+                                   "partition_metadata": dct("int", t_part)}))
+    for name, lean, item, lt in [
+        ("decode_offset_commit_response", "genDecodeOffsetCommitResponse", tup("text", "int", "int"), {}),
+        ("decode_offset_fetch_response", "genDecodeOffsetFetchResponse", tup("text", "int", "int", "optbytes", "int"), {}),
+        ("decode_offset_response", "genDecodeOffsetResponse", tup("text", "int", "int", "ints"), {"offsets": "ints"}),
+    ]:
+        specs.append(Spec(name, lean, [("data", "bytes")], None, src.func("kafkacodec.py", "KafkaCodec." + name),
+                          local_types=lt, generator=item))
+    for nested, lean in [("v0", "genDecodeProduceResponseV0"), ("v2", "genDecodeProduceResponseV2")]:
+        specs.append(Spec(nested, lean, [("data", "bytes")], None,
+                          src.func("kafkacodec.py", "KafkaCodec.decode_produce_response." + nested),
+                          generator=tup("text", "int", "int", "int")))
+    specs.append(Spec("encode_metadata_request", "genEncodeMetadataRequest",
+                      hdr + [("topics", lst("opttext"))], "bytes", src.func("kafkacodec.py", "KafkaCodec.encode_metadata_request")))
     tr = WireTranslator(
         specs,
         class_consts={"KafkaCodec": _class_int_attrs(codec, "KafkaCodec")},
